@@ -1,6 +1,6 @@
 (* Model/Dispatch.v — one entry point for the harness: op code + encoded argument -> encoded
    result.  Op codes are listed in harness/ops.py.  Glue, no proofs. *)
-From VK Require Import Base Core STV Pairwise Rules Codec.
+From VK Require Import Base Core STV Pairwise Rules PV Election Codec.
 
 Definition op_remove_cand (v : val) : val :=
   match v with
@@ -122,6 +122,48 @@ Definition op_queries (v : val) : val :=
   | _ => VE EScript
   end.
 
+Definition op_wrule (v : val) : val :=
+  match v with
+  | VL [r; p; script] =>
+      match (let! r' := dWRule r in let! p' := dProfile p in let! s := dScript script in
+             ok (r', p', s)) with
+      | inl (r', p', s) => runM eStates (run_wrule cand ceqb r' p') s
+      | inr e => VE e
+      end
+  | _ => VE EScript
+  end.
+
+(* a history of queries on a finished election; get_profile queries thread the script *)
+Fixpoint run_history (r : option rule) (p : profile) (sts : list estate) (qs : list val)
+         (s : mstate cand) : list val :=
+  match qs with
+  | [] => []
+  | VL [VZ 6; VZ i] :: rest =>
+      match r with
+      | Some r' =>
+          match get_profile cand ceqb r' p sts i s with
+          | inl (np, s') => eProfile np :: run_history r p sts rest s'
+          | inr e => VE e :: run_history r p sts rest s
+          end
+      | None => VE EOther :: run_history r p sts rest s
+      end
+  | q :: rest => run_query (cands p) sts q :: run_history r p sts rest s
+  end.
+Definition op_history (v : val) : val :=
+  match v with
+  | VL [r; p; script; qs] =>
+      match (let! r' := dWRule r in let! p' := dProfile p in let! s := dScript script in
+             let! qs' := dL qs in ok (r', p', s, qs')) with
+      | inl (r', p', s, qs') =>
+          match run_wrule cand ceqb r' p' (mkM s []) with
+          | inl (sts, s') => VL [eStates sts; VL (run_history (expand r') p' sts qs' s')]
+          | inr e => VE e
+          end
+      | inr e => VE e
+      end
+  | _ => VE EScript
+  end.
+
 Definition dispatch (op : Z) (v : val) : val :=
   match op with
   | 1 => op_remove_cand v
@@ -137,6 +179,8 @@ Definition dispatch (op : Z) (v : val) : val :=
   | 11 => op_transfer v
   | 20 => op_stv v
   | 21 => op_rule v
+  | 22 => op_wrule v
+  | 41 => op_history v
   | 30 => op_pairwise v
   | 40 => op_queries v
   | _ => VE EOther
